@@ -160,6 +160,8 @@ _NP_FUNCS = {
     "diag": lambda a: np.diag(_arr(a)),
     "swapaxes": lambda a, i, j: np.swapaxes(_arr(a), i, j),
     "cross": lambda a, b: _cross(_arr(a), _arr(b)),
+    "atleast_2d": lambda a: np.atleast_2d(_arr(a)),
+    "atleast_1d": lambda a: np.atleast_1d(_arr(a)),
     "ix_": lambda *a: np.ix_(*[np.asarray(x, dtype=int) for x in a]),
     "sqrt": lambda a: _opaque("sqrt", a),
     "abs": lambda a: _opaque("abs", a),
@@ -193,14 +195,62 @@ def _arr(x):
     return np.array(Sym.const(x), dtype=object)
 
 
+OPAQUE_ARGS = {}  # atom name -> (function name, argument): lets a rule look inside an uninterpreted application
+
+
+def _opaque1(fname, x):
+    x = Sym.const(x)
+    name = f"{fname}({x!r})"
+    OPAQUE_ARGS[name] = (fname, x)
+    return Sym.atom(name)
+
+
 def _opaque(fname, a):
     """An uninterpreted function applied entry-wise: equal only to itself applied to an equal argument."""
     if isinstance(a, np.ndarray):
         out = np.empty(a.shape, dtype=object)
         for idx in np.ndindex(*a.shape):
-            out[idx] = Sym.atom(f"{fname}({Sym.const(a[idx])!r})")
+            out[idx] = _opaque1(fname, a[idx])
         return out
-    return Sym.atom(f"{fname}({Sym.const(a)!r})")
+    return _opaque1(fname, a)
+
+
+def _det(a):
+    """Determinant of a small square symbolic matrix (Laplace expansion): ring arithmetic only."""
+    a = _arr(a)
+    if a.ndim != 2 or a.shape[0] != a.shape[1]:
+        raise ProgramError("LinAlgError")
+    n = a.shape[0]
+    if n > 4:
+        raise NotSymbolic("determinant of a matrix larger than 4x4")
+    if n == 0:
+        return Sym.const(1)
+    if n == 1:
+        return Sym.const(a[0, 0])
+    tot = Sym.const(0)
+    for j in range(n):
+        minor = np.delete(np.delete(a, 0, axis=0), j, axis=1)
+        term = Sym.const(a[0, j]) * _det(minor)
+        tot = tot + term if j % 2 == 0 else tot - term
+    return tot
+
+
+def _norm(a, **kw):
+    """Euclidean / Frobenius norm: the (uninterpreted) square root of the sum of squares."""
+    if kw:
+        raise NotSymbolic("norm with options")
+    a = _arr(a)
+    tot = Sym.const(0)
+    for x in a.ravel():
+        tot = tot + Sym.const(x) * Sym.const(x)
+    return _opaque1("sqrt", tot)
+
+
+class ProgramError(Exception):
+    """The evaluated program text would raise (e.g. numpy's LinAlgError for a non-square determinant)."""
+
+
+_LINALG_FUNCS = {"det": _det, "norm": _norm}
 
 
 def _einsum(spec, *ops):
@@ -372,6 +422,17 @@ class SymEval:
         if any(k.arg is None for k in n.keywords):
             raise NotSymbolic("**kwargs")
         f = n.func
+        if (
+            isinstance(f, ast.Attribute)
+            and isinstance(f.value, ast.Attribute)
+            and f.value.attr == "linalg"
+            and isinstance(f.value.value, ast.Name)
+            and f.value.value.id in self.np_names
+        ):
+            fn = _LINALG_FUNCS.get(f.attr)
+            if fn is None:
+                raise NotSymbolic(f"numpy.linalg function {f.attr}")
+            return fn(*[self.eval(a) for a in n.args], **kwargs)
         if isinstance(f, ast.Attribute) and isinstance(f.value, ast.Name) and f.value.id in self.np_names:
             fn = _NP_FUNCS.get(f.attr)
             if fn is None:
